@@ -93,7 +93,22 @@ def order_key(ev):
     return (ev["model"]["id"], teams, o, json.dumps(ev["tau"]), json.dumps(ev["limit"]))
 
 
-def replay_events(run, events, want, stage, group_orders=None):
+def erase_own(p, kind):
+    """Harness-side analogue of Rel!EraseOwn (the trace specification re-decides correspondence)."""
+    if p.get("t") == "rating":
+        return ["rating", "own" if p["v"] == kind else "foreign", p["mu"], p["sigma"]]
+    if p.get("t") in ("list", "tuple"):
+        return [p["t"], [erase_own(x, kind) for x in p["items"]]]
+    return [p.get("t"), p.get("v")]
+
+
+def model_key(ev):
+    k = ev["model"]["kind"]
+    return json.dumps([ev["op"], erase_own(ev["teams"], k), erase_own(ev.get("ranks", {"t": "none"}), k),
+                       erase_own(ev.get("scores", {"t": "none"}), k)])
+
+
+def replay_events(run, events, want, stage, group_orders=None, group_models=None):
     """Perform TLC-emitted calls on the real library and validate the recorded executions.
     One trace per call; with group_orders=<prop>, calls stating the same weak order share a trace and a group."""
     import plans
@@ -108,6 +123,20 @@ def replay_events(run, events, want, stage, group_orders=None):
             for i, ev in enumerate(evs):
                 ev = dict(ev, group="%s:mc%d" % (group_orders, gi), role="base" if i == 0 else "order")
                 rp.objs.clear()     # value-identical fresh objects for every sibling
+                rp.perform(ev)
+    elif group_models:
+        # the corresponding call on every model class shares a trace and a group (relation "model")
+        groups = {}
+        for ev in events:
+            groups.setdefault(model_key(ev), []).append(ev)
+        for gi, (k, evs) in enumerate(groups.items()):
+            rp.reset()
+            per_kind = {}
+            for e in evs:          # different substitutions can produce the same call: one per class
+                per_kind.setdefault(e["model"]["kind"], e)
+            evs = sorted(per_kind.values(), key=lambda e: e["model"]["id"])
+            for i, ev in enumerate(evs):
+                ev = dict(ev, group="%s:mcm%d" % (group_models, gi), role="base" if i == 0 else "model")
                 rp.perform(ev)
     else:
         for ev in events:
@@ -156,11 +185,11 @@ CHECK_DEADLOCK FALSE
 """
 
 
-def grammar(run, tag, kinds, shapes, want=None, replay=True):
+def grammar(run, tag, kinds, shapes, want=None, replay=True, group_models=None):
     cfg = GRAMMAR_CFG % dict(kinds=qset(kinds), shapes=qset(shapes))
     res = run_mc(run, "MC_Grammar", cfg, tag)
     if replay:
-        replay_events(run, res["events"], want or {run.prop}, "replay:" + tag)
+        replay_events(run, res["events"], want or {run.prop}, "replay:" + tag, group_models=group_models)
     run.exhaustive = True
     return res
 
